@@ -71,9 +71,9 @@ def gh(index, rep):
             P_ = [a.arg for a in fn.args.args]
             env = {P_[0]: obj, P_[1]: Path(("c",)), P_[2]: gfa}
             # evaluate up to (not including) the statement that builds the production Food object
-            upto = next((i for i, st in enumerate(fn.body) if any(isinstance(c, ast.Call) and dotted(c.func) == "Food" for c in ast.walk(st))), 1)
+            pname, upto = c08.production_split(fn)
             it.exec_block([st for st in fn.body[:upto] if not (isinstance(st, ast.Expr) and isinstance(st.value, ast.Constant))], env)
-            return env.get(c08.produced_var(fn))
+            return env.get(pname)
 
         try:
             envs = explore(runit, month_classes=False)
@@ -129,7 +129,7 @@ def reloc(index, rep):
     rule = "C09.RELOC"
     # per-month arms are checked in C08.LOOP (shared evaluation); here: the assertion and the expanded-area multiplier
     c08.loop_rule(index, rep, "C09.RELOC", "C09.RELOC")
-    fn = index.func(OC, "OutdoorCrops.assign_increase_from_increased_cultivated_area")
+    fn = index.flat_func(OC, "OutdoorCrops.assign_increase_from_increased_cultivated_area")   # a helper that builds the ramp is read as part of it
     expanded_area(index, rep, fn, rule)
     cm = index.func(OC, "OutdoorCrops.calculate_monthly_production")
     from .core import bounds_in
@@ -166,6 +166,8 @@ def expanded_area(index, rep, fn, rule):
     env = {"self": Obj(None, {"NMONTHS": Rat.atom("N"), "KCALS_GROWN": Path(("grown",))}, "self"), fn.args.args[1].arg: Path(("c",))}
     arrays = {}
     stores = []
+    elem_names = {}
+    same_as = {}
     INF = float("inf")
     rtab = {("t",): Interval(0, INF, True, True), ("e",): Interval(0, INF, True, True), ("k",): Interval(0, INF, False, True),
             ("Nh",): Interval(0, INF, False, True)}
@@ -177,21 +179,35 @@ def expanded_area(index, rep, fn, rule):
             if isinstance(st, ast.Assign) and isinstance(st.targets[0], ast.Name):
                 v = it.eval(st.value, env)
                 env[st.targets[0].id] = v
-                if isinstance(v, NArr):
+                if isinstance(st.value, ast.Name) and st.value.id in arrays:
+                    same_as[st.targets[0].id] = same_as.get(st.value.id, st.value.id)     # another name for the same array
+                    arrays[st.targets[0].id] = arrays[st.value.id]
+                elif isinstance(v, NArr):
                     arrays[st.targets[0].id] = [it.to_rat(f) for f, n in v.segs]
                 continue
             if isinstance(st, ast.Assign) and isinstance(st.targets[0], ast.Subscript) and isinstance(st.targets[0].value, ast.Name) \
                     and st.targets[0].value.id in arrays:
                 stores.append((st.targets[0].value.id, it.to_rat(it.eval(st.value, env)), st))
                 continue
-            if isinstance(st, ast.For) and isinstance(st.target, ast.Name):
-                r = it.eval(st.iter, env)
-                lo = getattr(r, "lo", None)
+            enum_of = None
+            if isinstance(st, ast.For) and isinstance(st.target, ast.Tuple) and len(st.target.elts) == 2 and all(isinstance(e__, ast.Name) for e__ in st.target.elts) \
+                    and isinstance(st.iter, ast.Call) and dotted(st.iter.func) == "enumerate" and len(st.iter.args) == 1 \
+                    and isinstance(st.iter.args[0], ast.Name) and st.iter.args[0].id in arrays:
+                # for i, x in enumerate(<multiplier array>): x is element i of that array
+                enum_of = (st.target.elts[0].id, st.target.elts[1].id, st.iter.args[0].id)
+            if isinstance(st, ast.For) and (isinstance(st.target, ast.Name) or enum_of):
                 env2 = dict(env)
-                if lo is not None and it.to_rat(lo) == Ns:
-                    env2[st.target.id] = Ns + k_
+                if enum_of:
+                    env2[enum_of[0]] = Rat.atom(MONTH)
+                    env2[enum_of[1]] = Rat.atom(("elem-of", enum_of[2]))
+                    elem_names[enum_of[1]] = enum_of[2]
                 else:
-                    env2[st.target.id] = Rat.atom(MONTH)
+                    r = it.eval(st.iter, env)
+                    lo = getattr(r, "lo", None)
+                    if lo is not None and it.to_rat(lo) == Ns:
+                        env2[st.target.id] = Ns + k_
+                    else:
+                        env2[st.target.id] = Rat.atom(MONTH)
                 for s2 in st.body:
                     if isinstance(s2, ast.Assign) and isinstance(s2.targets[0], ast.Subscript):
                         base = s2.targets[0].value
@@ -208,7 +224,7 @@ def expanded_area(index, rep, fn, rule):
             raise Unsupported("statement in the expanded-area routine", st)
     except Unsupported as e:
         raise AnalysisError(f"assign_increase_from_increased_cultivated_area outside the analysed fragment: {e}")
-    mult = [a for a in arrays if any(s[0] == a for s in stores)]
+    mult = [a for a in arrays if any(s[0] == a for s in stores) and a not in same_as]
     if len(mult) != 1:
         raise AnalysisError("expanded area: multiplier array not identified")
     m = mult[0]
@@ -229,7 +245,11 @@ def expanded_area(index, rep, fn, rule):
         idx, val, env2 = app[0][1]
         ok = isinstance(val, (Rat, Path)) and any(isinstance(a, K) and a.path[:1] == ("grown",) for a in it.to_rat(val).atoms())
         # value = grown[i] x multiplier[i]: the multiplier's generic element is opaque here, so compare with the source expression
-        ok = ok and norm_src(app[0][2].value) in (f"self.KCALS_GROWN[{idx}] * {m}[{idx}]", f"{m}[{idx}] * self.KCALS_GROWN[{idx}]")
+        v_ = app[0][2].value
+        sides = [norm_src(v_.left), norm_src(v_.right)] if isinstance(v_, ast.BinOp) and isinstance(v_.op, ast.Mult) else []
+        names_m = {m} | {a_ for a_, b_ in same_as.items() if b_ == m}
+        mult_elem = [f"{a_}[{idx}]" for a_ in names_m] + [nm for nm, arr_ in elem_names.items() if arr_ in names_m]
+        ok = ok and len(sides) == 2 and f"self.KCALS_GROWN[{idx}]" in sides and any(x in sides for x in mult_elem)
     rep.check(ok, rule, "expanded area: grown[i] multiplied by multiplier[i]", "the grown series is not multiplied month by month by the multiplier",
               loc=loc(OC, fn))
     if n < 2:
